@@ -27,6 +27,19 @@ var c17Cmds = [][]string{
 	{"stats"}, {"lint", "log.yaml"}, {"lint", "food.yaml"}, {"lint", "bad.yaml"}, {"lint", "--silent", "bad.yaml"},
 }
 
+var c17UnshareOnce struct {
+	done bool
+	ok   bool
+}
+
+func c17CanUnshare() bool {
+	if !c17UnshareOnce.done {
+		c17UnshareOnce.done = true
+		c17UnshareOnce.ok = exec.Command("unshare", "-m", "true").Run() == nil
+	}
+	return c17UnshareOnce.ok
+}
+
 func c17Name(cmd []string) string {
 	n := strings.Join(cmd[:min(2, len(cmd))], " ")
 	if cmd[0] == "summary" || cmd[0] == "lint" {
@@ -66,7 +79,7 @@ func c17Files(r *core.Ctx, idx int, big bool) map[string]string {
 }
 
 func runC17(c *core.Ctx) {
-	c.SetRule("faults: every report command shape (31: reg in all variants, bal x3 with/without -s, csv x3, print, summary, report x4, stats, lint with and without findings) x output sink failing from byte offset k: every k in 0..len for reports <= 3000 bytes (exhaustive), and for reports of several bufio buffers k in {0, 1, multiples of 4096 -1/0/+1, len-1, 64 PRNG-chosen offsets}; plus the real binary with stdout = /dev/full, a pipe closed at once, a pipe closed after 4 KiB, a file under ulimit -f (incl. gen man/markdown). Invariants on the counting sink: the sink returned an error to a Write => non-zero exit; exit 0 => the complete report was accepted. Non-trivial = run in which the sink did return an error (counted by the wrapper); distinct = hash(files, argv, k).")
+	c.SetRule("faults: every report command shape (31: reg in all variants, bal x3 with/without -s, csv x3, print, summary, report x4, stats, lint with and without findings) x output sink failing from byte offset k: every k in 0..len for reports <= 3000 bytes (exhaustive), and for reports of several bufio buffers k in {0, 1, multiples of 4096 -1/0/+1, len-1, 64 PRNG-chosen offsets}; plus the real binary (incl. gen man/markdown) with stdout = /dev/full, a pipe closed before the first write / at once / after 4 KiB, a regular file opened read-only, a file on a full tmpfs, a file under ulimit -f. Invariants on the counting sink: the sink returned an error to a Write => non-zero exit; exit 0 => the complete report was accepted. Non-trivial = run in which the sink did return an error (counted by the wrapper); distinct = hash(files, argv, k).")
 	c.Assume("--help/--version are printed by the CLI library and are not reports")
 	pool := newPool(c, c.Procs)
 	if pool == nil {
@@ -212,6 +225,8 @@ func runC17(c *core.Ctx) {
 			{"pipe closed before the first write", fmt.Sprintf("{ sleep 0.3; exec %s %s; } | true; exit ${PIPESTATUS[0]}", c.HR, q(args)), dir},
 			{"pipe closed at once", fmt.Sprintf("%s %s | true; exit ${PIPESTATUS[0]}", c.HR, q(args)), bigdir},
 			{"pipe closed after 4 KiB", fmt.Sprintf("%s %s | head -c 4096 >/dev/null; exit ${PIPESTATUS[0]}", c.HR, q(args)), bigdir},
+			{"stdout is a regular file opened read-only", fmt.Sprintf(": > ro.$$.out; %s %s 1< ro.$$.out; rc=$?; rm -f ro.$$.out; exit $rc", c.HR, q(args)), dir},
+			{"file on a full 64 KiB tmpfs", fmt.Sprintf("unshare -m bash -c 'mkdir -p full.$$ && mount -t tmpfs -o size=64k tmpfs full.$$ && head -c 70000 /dev/zero > full.$$/filler 2>/dev/null; \"$@\" > full.$$/out; rc=$?; umount full.$$; rmdir full.$$; exit $rc' -- %s %s", c.HR, q(args)), dir},
 			{"file under ulimit -f 1", fmt.Sprintf("ulimit -f 1; %s %s > limited.$$.out; rc=$?; rm -f limited.$$.out; exit $rc", c.HR, q(args)), bigdir},
 		} {
 			big := run.Exec(c.HR, args, run.ExecOpts{Dir: v.dir})
@@ -223,8 +238,11 @@ func runC17(c *core.Ctx) {
 				need = 2048
 			case "pipe closed at once":
 				need = 70000
-			case "pipe closed before the first write":
+			case "pipe closed before the first write", "stdout is a regular file opened read-only", "file on a full 64 KiB tmpfs":
 				need = 1
+			}
+			if v.what == "file on a full 64 KiB tmpfs" && !c17CanUnshare() {
+				continue
 			}
 			if len(big.Out) < need {
 				continue
